@@ -30,6 +30,9 @@ pub enum RxVerdict {
     },
     /// The closure dropped the whole buffer and R1 rejects it.
     Discarded { bytes: usize },
+    /// The closure dropped the whole buffer although R1 does not reject it (the station empties
+    /// its receive buffer when a slot time expires).
+    Flushed { bytes: usize },
     /// Anything else the closure did with a non-empty drop.
     Anomaly { dropped: usize, shown: usize, r1: String },
 }
@@ -64,6 +67,7 @@ pub struct HarnessPhy {
     pub stat_multi_in_buffer: u64,
     pub stat_discards: u64,
     pub stat_consumed: u64,
+    pub stat_flushes: u64,
 }
 
 impl HarnessPhy {
@@ -99,6 +103,7 @@ impl HarnessPhy {
             stat_multi_in_buffer: 0,
             stat_discards: 0,
             stat_consumed: 0,
+            stat_flushes: 0,
         }
     }
 
@@ -257,6 +262,10 @@ impl ProfibusPhy for HarnessPhy {
                 Dec::Bad if dropped == shown => {
                     self.stat_discards += 1;
                     RxVerdict::Discarded { bytes: dropped }
+                }
+                _ if dropped == shown => {
+                    self.stat_flushes += 1;
+                    RxVerdict::Flushed { bytes: dropped }
                 }
                 other => RxVerdict::Anomaly {
                     dropped,
